@@ -56,6 +56,7 @@ type EvRet struct {
 	ValType string  `json:"valtype"` // convert mode: dynamic type of the returned value
 	ValNil  bool    `json:"valnil"`  // convert mode: returned interface{} is nil
 	Lack    bool    `json:"lack"`    // error text says an argument could not / cannot be satisfied
+	ValOK   bool    `json:"valok"`   // convert mode: the returned value is assignable to the requested type
 }
 
 type EvRedef struct {
@@ -103,6 +104,9 @@ type Env struct {
 	nextGen int
 }
 
+// TokOffset separates the token spaces of the two environments of a convert/call pair.
+const TokOffset = 1000
+
 func NewEnv(nconvs int) *Env {
 	return &Env{Phase: 1, errs: map[error]errInfo{}, self: map[int]*am.Func{}, funcs: map[*am.Func]int{}, NConvs: nconvs, nextGen: nconvs}
 }
@@ -123,7 +127,10 @@ func plain(ls []Label) bool {
 	return true
 }
 
-func tagOf(l Label) reflect.StructTag {
+func tagOf(l Label, upper bool) reflect.StructTag {
+	if upper {
+		l.Name = strings.ToUpper(l.Name)
+	}
 	tags := []string{l.Name}
 	if l.Name == "" {
 		tags = append(tags, "typeOnly")
@@ -134,20 +141,20 @@ func tagOf(l Label) reflect.StructTag {
 	return reflect.StructTag(fmt.Sprintf(`argmapper:"%s"`, strings.Join(tags, ",")))
 }
 
-func structOf(ls []Label) reflect.Type {
+func structOf(ls []Label, upper bool) reflect.Type {
 	sf := []reflect.StructField{{Name: "Struct", Type: structMarker, Anonymous: true}}
 	for i, l := range ls {
 		sf = append(sf, reflect.StructField{
 			Name: fmt.Sprintf("F%d", i),
 			Type: TypeOf(l.Type),
-			Tag:  tagOf(l),
+			Tag:  tagOf(l, upper),
 		})
 	}
 	return reflect.StructOf(sf)
 }
 
 // side returns the Go types of one side of a signature.
-func side(ls []Label, form string) (types []reflect.Type, isStruct bool, ptr bool) {
+func side(ls []Label, form string, upper bool) (types []reflect.Type, isStruct bool, ptr bool) {
 	if form == "pos" && plain(ls) {
 		for _, l := range ls {
 			types = append(types, TypeOf(l.Type))
@@ -157,7 +164,7 @@ func side(ls []Label, form string) (types []reflect.Type, isStruct bool, ptr boo
 	if len(ls) == 0 && form == "pos" {
 		return nil, false, false
 	}
-	st := structOf(ls)
+	st := structOf(ls, upper)
 	if form == "ptr" {
 		return []reflect.Type{reflect.PtrTo(st)}, true, true
 	}
@@ -213,8 +220,8 @@ func (env *Env) failure(idx int, as string) (error, int) {
 }
 
 func (env *Env) buildReflect(idx int, fs FuncSpec, opts []am.Arg) (*am.Func, error) {
-	inT, inStruct, inPtr := side(fs.In, fs.Form)
-	outT, outStruct, outPtr := side(fs.Out, fs.Form)
+	inT, inStruct, inPtr := side(fs.In, fs.Form, fs.Upper)
+	outT, outStruct, outPtr := side(fs.Out, fs.Form, fs.Upper)
 	if len(fs.Out) == 0 {
 		outT, outStruct, outPtr = nil, false, false
 	}
@@ -294,10 +301,14 @@ func (env *Env) buildReflect(idx int, fs FuncSpec, opts []am.Arg) (*am.Func, err
 	return am.NewFunc(fn.Interface(), opts...)
 }
 
-func toValues(ls []Label) []am.Value {
+func toValues(ls []Label, upper bool) []am.Value {
 	vs := make([]am.Value, len(ls))
 	for i, l := range ls {
-		vs[i] = am.Value{Name: l.Name, Type: TypeOf(l.Type), Subtype: l.Sub}
+		n := l.Name
+		if upper {
+			n = strings.ToUpper(n)
+		}
+		vs[i] = am.Value{Name: n, Type: TypeOf(l.Type), Subtype: l.Sub}
 	}
 	return vs
 }
@@ -306,12 +317,12 @@ func (env *Env) buildBuilt(idx int, fs FuncSpec, opts []am.Arg) (*am.Func, error
 	var inSet, outSet *am.ValueSet
 	var err error
 	if len(fs.In) > 0 {
-		if inSet, err = am.NewValueSet(toValues(fs.In)); err != nil {
+		if inSet, err = am.NewValueSet(toValues(fs.In, fs.Upper)); err != nil {
 			return nil, err
 		}
 	}
 	if len(fs.Out) > 0 {
-		if outSet, err = am.NewValueSet(toValues(fs.Out)); err != nil {
+		if outSet, err = am.NewValueSet(toValues(fs.Out, fs.Upper)); err != nil {
 			return nil, err
 		}
 	}
